@@ -14,6 +14,8 @@
     all-zero). *)
 From Coq Require Import List ZArith NArith Permutation.
 From AGH Require Import Base.Run Model.Dhcp4 Proofs.Dhcp4 Proofs.Dhcp4Names Proofs.Dhcp4Disk Proofs.Dhcp4Alloc.
+From AGH Require Import Model.Dhcp4Admin Proofs.Dhcp4Admin.
+From AGH Require Model.Dhcp4Bitset Proofs.Dhcp4Bitset.
 Import ListNotations.
 Local Open Scope N_scope.
 
@@ -240,3 +242,154 @@ Example C10_premises_satisfiable :
   (exists s' mt yi r, step example_conf s example_now [] (ODiscover (mac6 2)) = (s', ROk mt yi) /\
      yi <> 0 /\ In r (leases s') /\ l_static r = true /\ l_mac r = mac6 2).
 Proof. exact premises_satisfiable. Qed.
+
+(** * The DHCP service and its HTTP admin operations (Model/Dhcp4Admin.v)
+
+    [wrun dir h (create dir y no_files)] is the service after any history [h]
+    (messages, static-lease requests, time, set_config, reset, reset_leases,
+    status, process restarts) from a process start in the empty data
+    directory [dir] with the DHCP section [y] of the configuration file.
+    [whist_ok gw h]: [op_ok] for the messages and static-lease requests, and
+    every set_config keeps the gateway [gw]; [yaml_ok gw y]: so do the
+    settings of the configuration file. *)
+
+(** The database path is a component of the service's state that no
+    operation changes: over every history it is the lease file of the data
+    directory the process was started with (and the service's DataDir field
+    is empty throughout: the path cannot be derived from it again). *)
+Theorem C10_db_path_constant : forall dir y fs h,
+  let w := wrun dir h (create dir y fs) in
+  sc_db_path (w_sc w) = join_path dir data_filename /\ sc_data_dir (w_sc w) = [].
+Proof. exact path_constant. Qed.
+Print Assumptions C10_db_path_constant.
+
+Theorem C10_db_path_step : forall dir w now busy o,
+  o <> WRestart -> o <> WOp ORestart ->
+  sc_db_path (w_sc (fst (wstep dir w now busy o))) = sc_db_path (w_sc w) /\
+  sc_data_dir (w_sc (fst (wstep dir w now busy o))) = sc_data_dir (w_sc w).
+Proof. exact wstep_path_same. Qed.
+Print Assumptions C10_db_path_step.
+
+(** In every reachable state of a configured service the table satisfies the
+    invariant of its current settings, and the file it stores to is the lease
+    file of the data directory. *)
+Theorem C10_admin_inv_reachable : forall dir gw y h c,
+  yaml_ok gw y -> whist_ok gw h ->
+  let w := wrun dir h (create dir y no_files) in
+  w_v4 w = Some c -> FullInv c (st_of w) /\ disk (st_of w) = data_file dir w.
+Proof. exact table_inv_reachable. Qed.
+Print Assumptions C10_admin_inv_reachable.
+
+(** After every operation of every such history a process start (from the
+    data directory and the configuration file as the service last wrote it)
+    restores the same table, each lease once (expiry at whole seconds), and
+    the same HostByIP / IPByHost answers. *)
+Theorem C10_restart_restores : forall dir gw y h,
+  yaml_ok gw y -> whist_ok gw h ->
+  let w := wrun dir h (create dir y no_files) in
+  let w' := create dir (w_yaml w) (w_fs w) in
+  same_table (w_leases w') (w_leases w) /\
+  (forall n, ip_by_host (st_of w') n = ip_by_host (st_of w) n) /\
+  (forall ip, host_by_ip (st_of w') ip = host_by_ip (st_of w) ip).
+Proof. exact restart_restores_reachable. Qed.
+Print Assumptions C10_restart_restores.
+
+(** "The lease file of the data directory lists exactly the table, each lease
+    once" is kept by every operation from any state that satisfies the
+    invariant; for a set_config provided the settings are the current ones or
+    the file lists nothing (a set_config to a pool that cannot hold some
+    lease of the file drops it from the table and leaves it in the file until
+    the next store).  In particular by a reset. *)
+Theorem C10_disk_is_memory_step : forall dir gw w now busy o,
+  WInv dir gw w -> wop_ok gw o -> DiskIsMemory dir w ->
+  match o with WSetConfig c' => w_v4 w = Some c' \/ data_file dir w = [] | _ => True end ->
+  DiskIsMemory dir (fst (wstep dir w now busy o)).
+Proof. exact wstep_disk_is_memory. Qed.
+Print Assumptions C10_disk_is_memory_step.
+
+Theorem C10_reset_keeps_agreement : forall dir gw y h now busy,
+  yaml_ok gw y -> whist_ok gw h ->
+  let w := wrun dir h (create dir y no_files) in
+  DiskIsMemory dir (fst (wstep dir w now busy WReset)).
+Proof. exact reset_keeps_agreement_reachable. Qed.
+Print Assumptions C10_reset_keeps_agreement.
+
+(** reset, then set_config with any settings Validate accepts, then any
+    history of messages, static-lease requests, resets, reset_leases and
+    restarts: the lease file of the data directory lists exactly the table,
+    and a process start restores the same table and the same answers. *)
+Theorem C10_restart_after_reset : forall dir gw y h0 c' h now busy now' busy',
+  yaml_ok gw y -> whist_ok gw h0 -> c_gw c' = gw -> valid_conf_b c' = true ->
+  whist_ok gw h -> no_reconf h ->
+  let w0 := wrun dir h0 (create dir y no_files) in
+  let w1 := fst (wstep dir w0 now busy WReset) in
+  let w2 := fst (wstep dir w1 now' busy' (WSetConfig c')) in
+  let w := wrun dir h w2 in
+  w_v4 w2 = Some c' /\ w_leases w2 = [] /\
+  DiskIsMemory dir w /\
+  let w' := create dir (w_yaml w) (w_fs w) in
+  same_table (w_leases w') (w_leases w) /\
+  (forall n, ip_by_host (st_of w') n = ip_by_host (st_of w) n) /\
+  (forall ip, host_by_ip (st_of w') ip = host_by_ip (st_of w) ip).
+Proof. exact restart_after_reset. Qed.
+Print Assumptions C10_restart_after_reset.
+
+(** Non-vacuity: settings, a history with a lease, a reset, a set_config and
+    a reservation; at the end the table holds the reservation and the lease
+    file of the data directory lists it. *)
+Example C10_admin_premises_satisfiable :
+  yaml_ok (c_gw example_conf) ex_yaml /\ whist_ok (c_gw example_conf) ex_history /\
+  valid_conf_b example_conf = true /\
+  let w := wrun ex_dir ex_history (create ex_dir ex_yaml no_files) in
+  w_v4 w = Some example_conf /\ length (w_leases w) = 1%nat /\
+  length (data_file ex_dir w) = 1%nat /\ sc_db_path (w_sc w) = db_of ex_dir.
+Proof. exact admin_premises_satisfiable. Qed.
+
+(** * The leased-offset set as the code keeps it (bitset.go, Model/Dhcp4Bitset.v)
+
+    Bit [n] lives in the 64-bit word [n / 64] of a sparse map at position
+    [n mod 64]; written with [word |= 1 << bit] / [word &^= 1 << bit], read
+    with [word & (1 << bit) != 0].  Read through [is_set] this is the abstract
+    set of offsets the lease-table model uses ([offs], updated with [upd]):
+    for all indices, the bit written reads back and every other bit, of the
+    same word or of another, is unchanged; a new set is empty; a nil set is
+    empty and ignores writes; every stored word fits 64 bits (so the code's
+    uint64 arithmetic never truncates). *)
+Theorem C10_bitset_set_is_set : forall s n v,
+  s <> None -> Dhcp4Bitset.is_set (Dhcp4Bitset.set s n v) n = v.
+Proof. exact Proofs.Dhcp4Bitset.set_is_set. Qed.
+Print Assumptions C10_bitset_set_is_set.
+
+Theorem C10_bitset_other_bits_unchanged : forall s n v m,
+  m <> n -> Dhcp4Bitset.is_set (Dhcp4Bitset.set s n v) m = Dhcp4Bitset.is_set s m.
+Proof. exact Proofs.Dhcp4Bitset.set_other. Qed.
+Print Assumptions C10_bitset_other_bits_unchanged.
+
+Theorem C10_bitset_refines_offsets : forall s n v m,
+  s <> None ->
+  Proofs.Dhcp4Bitset.abs (Dhcp4Bitset.set s n v) m = upd (Proofs.Dhcp4Bitset.abs s) n v m.
+Proof. exact Proofs.Dhcp4Bitset.set_refines_upd. Qed.
+Print Assumptions C10_bitset_refines_offsets.
+
+Theorem C10_bitset_new_is_empty : forall m,
+  Proofs.Dhcp4Bitset.abs Dhcp4Bitset.new_bitset m = offs empty_index m.
+Proof. exact Proofs.Dhcp4Bitset.new_refines_empty. Qed.
+Print Assumptions C10_bitset_new_is_empty.
+
+Theorem C10_bitset_nil_ignores_writes : forall n v m,
+  Dhcp4Bitset.is_set (Dhcp4Bitset.set None n v) m = false.
+Proof. exact Proofs.Dhcp4Bitset.nil_is_empty. Qed.
+Print Assumptions C10_bitset_nil_ignores_writes.
+
+Theorem C10_bitset_words_fit : forall s n v,
+  Proofs.Dhcp4Bitset.wf s -> Proofs.Dhcp4Bitset.wf (Dhcp4Bitset.set s n v).
+Proof. exact Proofs.Dhcp4Bitset.wf_set. Qed.
+Print Assumptions C10_bitset_words_fit.
+
+Example C10_bitset_example :
+  let s := Dhcp4Bitset.set (Dhcp4Bitset.set (Dhcp4Bitset.set (Dhcp4Bitset.set (Dhcp4Bitset.set
+             Dhcp4Bitset.new_bitset 0 true) 63 true) 64 true) 130 true) 63 false in
+  Dhcp4Bitset.is_set s 0 = true /\ Dhcp4Bitset.is_set s 63 = false /\ Dhcp4Bitset.is_set s 64 = true /\
+  Dhcp4Bitset.is_set s 130 = true /\ Dhcp4Bitset.is_set s 1 = false /\ Dhcp4Bitset.is_set s 128 = false /\
+  s <> None.
+Proof. exact Proofs.Dhcp4Bitset.bitset_example. Qed.
